@@ -701,6 +701,8 @@ def wire(kind):
     k = kind
     if k == 'OpenOk':
         return open_bytes()
+    if k.startswith('OpenOkHold'):  # valid OPEN proposing that hold time (ours is 180): RFC 4271 4.2, the smaller one counts
+        return open_bytes(hold=int(k[len('OpenOkHold'):]))
     if k == 'OpenOkExt':  # valid OPEN announcing Extended Message (RFC 8654)
         return open_bytes(ext=True)
     if k.startswith('UpdateBig'):  # valid UPDATE of that many octets
